@@ -118,7 +118,43 @@ fn from_tnode(t: &TNode) -> MNode {
     }
 }
 
+/// What the documentation of the `Root!` / `Branch!` / `Leaf!` macros says the tree in
+/// `device::MACRO_TREE` is (written from the macro documentation, not from their expansion).
+pub fn macro_tree_model() -> Vec<MNode> {
+    vec![
+        MNode::leaf("*MAC", false, H::Sim(0)),
+        // Branch![b"CONFigure" => h1; ...]: the branch itself is executable (anonymous default leaf)
+        MNode::branch(
+            "CONFigure",
+            false,
+            vec![
+                MNode::leaf("", true, H::Sim(1)),
+                MNode::leaf("VOLTage", false, H::Sim(2)),
+                // Branch![default b"SCALar"; ...]
+                MNode::branch(
+                    "SCALar",
+                    true,
+                    vec![MNode::leaf("DC", true, H::Sim(3)), MNode::leaf("AC", false, H::Sim(4))],
+                ),
+            ],
+        ),
+        MNode::branch(
+            "TRIGger2",
+            false,
+            vec![
+                MNode::leaf("", true, H::Sim(5)),
+                MNode::leaf("SOURce", false, H::Sim(6)),
+                MNode::branch("SEQuence", false, vec![MNode::leaf("LEVel", false, H::Sim(7))]),
+            ],
+        ),
+        MNode::branch("OUTPut", false, vec![MNode::leaf("STATe", true, H::Sim(8)), MNode::leaf("LEVel", false, H::Sim(9))]),
+    ]
+}
+
 pub fn model_root(desc: &TreeDesc) -> MNode {
+    if desc.fixed.as_deref() == Some("macro") {
+        return MNode::branch("", false, macro_tree_model());
+    }
     let mut sub = Vec::new();
     if desc.mandated {
         sub.extend(mandated_model());
@@ -395,10 +431,11 @@ impl<'a> Gen<'a> {
                 }
                 s
             };
-            let name = match self.rng.below(10) {
+            let name = match self.rng.below(12) {
                 0 => format!("{}1", stem),
                 1 => format!("{}{}", stem, self.rng.range(2, 9)),
                 2 => format!("{}{}", stem, self.rng.range(10, 32)),
+                3 => format!("{}{}", stem, self.rng.range(100, 999)),
                 _ => stem,
             };
             if name.len() > 12 {
@@ -564,7 +601,7 @@ pub fn gen_tree(rng: &mut Rng, mandated: bool, max_depth: usize, max_fan: usize,
             break;
         }
     }
-    TreeDesc { mandated, app }
+    TreeDesc { mandated, app, fixed: None }
 }
 
 /// Check the documented preconditions on a description (used to keep minimised traces in the
